@@ -7,11 +7,14 @@ Models: Model/Urlencode.lean (`quote_plus`, `urlencode`, `unquote` with the `wer
 handler, `parse_qsl` — stdlib, validated by stream `urlencode-kernels`), Model/FormOptions.lean
 (`parse_options_header`), Model/Multipart.lean (`MultipartEncoder.send_event`, the decoder).
 -/
+import WzVerif.Gen.FormOptions
 import WzVerif.Lemmas.Urlencode
 import WzVerif.Lemmas.FormOptions
 import WzVerif.Lemmas.Multipart
 import WzVerif.Lemmas.MultipartCodec
 import WzVerif.Lemmas.MultipartChunks
+import WzVerif.Lemmas.MultipartClient
+import WzVerif.Lemmas.FormLimitsRequest
 namespace Wz.Props.C02
 open Wz
 
@@ -76,7 +79,105 @@ theorem parseQsl_urlencode_keepBlank_needed :
   revert this
   decide +kernel
 
+/-- **urlencoded_body_roundtrip.** What `EnvironBuilder` writes for a form without files
+(`_urlencode(items)`) is read back by `FormDataParser._parse_urlencoded` as exactly the items, for every
+list of Unicode (key, value) pairs, every declared length and every short-read schedule of the input. -/
+theorem urlencoded_body_roundtrip (items : List (List Char × List Char)) (cl : Option Nat) (sched : List Nat) :
+    Urlencode.parseUrlencoded none cl sched (Urlencode.wzUrlencode items) = .ok items :=
+  Urlencode.parseUrlencoded_urlencode urlencode_safe_literal.2.1 items cl sched
+
+/-- **urlencoded_request_roundtrip.** … and at the request level: a `Request` whose body is
+`_urlencode(items)` with content type `application/x-www-form-urlencoded` and a truthful
+`Content-Length` shows exactly the items as `.form` / `.values` (Model/FormLimitsRequest.lean:
+`Request.stream`, `_load_form_data`, `FormDataParser.parse` dispatch), with no limits configured or with
+`max_form_memory_size` at least the body length. -/
+theorem urlencoded_request_roundtrip (items : List (List Char × List Char)) (mcl mm mp : Option Nat)
+    (hmcl : ∀ m, mcl = some m → (Urlencode.wzUrlencode items).length ≤ m)
+    (hmm : ∀ m, mm = some m → (Urlencode.wzUrlencode items).length ≤ m) :
+    (FormReq.run ⟨mcl, mm, mp, .urlencoded, some (Urlencode.wzUrlencode items).length, false⟩
+      (FormReq.fresh (Urlencode.wzUrlencode items)) [.form]).1 =
+      [.fields (items.map fun kv => (some kv.1, kv.2))] := by
+  let body := Urlencode.wzUrlencode items
+  let c : FormReq.Cfg := ⟨mcl, mm, mp, .urlencoded, some body.length, false⟩
+  have hc : FormReq.chooseStream c = some (.limited body.length 0 false) := by
+    cases mcl with
+    | none => simp [FormReq.chooseStream, c]
+    | some m =>
+      have := hmcl m rfl
+      have hle : ¬ (m < body.length) := by show ¬ (m < (Urlencode.wzUrlencode items).length); omega
+      simp [FormReq.chooseStream, c, hle]
+  have he : FormReq.endErr (.limited body.length 0 false) body = none := by simp [FormReq.endErr]
+  have hav : FormReq.avail (.limited body.length 0 false) body = body := by simp [FormReq.avail]
+  have hne : c.mime ≠ .absent := by simp [c]
+  show (FormReq.run c (FormReq.fresh body) [.form]).1 = _
+  simp only [FormReq.run]
+  rw [FormReq.formAccess_fresh c body hc hne rfl]
+  unfold FormReq.parseFrom
+  have hm : c.mime = .urlencoded := rfl
+  rw [hm, FormReq.parseDispatch_urlencoded_fst, FormReq.parseUrlencodedS_clean c.mm c.declared he, hav]
+  have hpg : Urlencode.parseUrlencoded c.mm c.declared [] body = .ok items := by
+    cases hmm' : mm with
+    | none =>
+      show Urlencode.parseUrlencoded mm _ [] body = _
+      rw [hmm']; exact urlencoded_body_roundtrip items _ []
+    | some m =>
+      have hle := hmm m hmm'
+      show Urlencode.parseUrlencoded mm (some body.length) [] body = _
+      rw [hmm']
+      have hfree := urlencoded_body_roundtrip items (some body.length) []
+      have hd : Urlencode.declaredTooLarge m (some body.length) = false := by
+        simp [Urlencode.declaredTooLarge]; exact hle
+      unfold Urlencode.parseUrlencoded at hfree ⊢
+      simp only [Urlencode.urlencodedRead, hd, Bool.false_eq_true, if_false] at hfree ⊢
+      rw [Urlencode.boundedLoop_result (m + 2) (m + 1) [] body [] (by omega)]
+      have : body.length < m + 1 := by show (Urlencode.wzUrlencode items).length < m + 1; omega
+      simp only [this, if_true, List.nil_append]
+      exact hfree
+  rw [hpg]
+  simp [FormReq.urlForm, FormReq.silence, FormReq.obsOf]
+
+example :
+    (FormReq.run ⟨none, some 500000, some 1000, .urlencoded, some 21, false⟩
+      (FormReq.fresh (Urlencode.wzUrlencode [(['a', ' '], ['&', '=']), (['a', ' '], []), ([], ['é'])])) [.form]).1 =
+      [.fields [(some ['a', ' '], ['&', '=']), (some ['a', ' '], []), (some [], ['é'])]] ∧
+    (Urlencode.wzUrlencode [(['a', ' '], ['&', '=']), (['a', ' '], []), ([], ['é'])]).length = 21 := by
+  decide +kernel
+
 /-! ### multipart: Content-Disposition -/
+
+/-- **What `parse_options_header` does to a quoted value is what the model does** (regenerated from the
+source by AST on every run). The "remove quotes" block `if pv[0] == pv[-1] == '"':` consists of one
+assignment `pv = pv[1:-1].replace(…)…` whose `str.replace` steps are exactly (backslash backslash → backslash), (backslash quote → quote),
+`%22 → "` in this order; nothing else in the function rewrites a value with `replace` / `translate` /
+`re.sub`; the closing-quote scanner skips exactly those two escape pairs; and the model's `unquoteValue` is the
+fold of those steps over the text between the quotes. An additional decoding step (say `%0A` → LF)
+changes the generated list and breaks this obligation. -/
+theorem options_quoted_value_as_modelled :
+    Gen.FormOptions.quotedBlockRecognised = true ∧
+    Gen.FormOptions.quotedBases = ["pv[1:-1]"] ∧
+    Gen.FormOptions.quotedReplaces.map (fun (a, b) => (a.toList, b.toList)) =
+      FormOptions.quotedReplaceSteps ∧
+    Gen.FormOptions.scanEscapes = ["\\\"", "\\\\"] ∧
+    ∀ pv, FormOptions.unquoteValue pv =
+      if pv.head? == some '"' && pv.getLast? == some '"' then
+        FormOptions.quotedReplaceSteps.foldl (fun s st => FormOptions.replace st.1 st.2 s) (pv.drop 1).dropLast
+      else pv := by
+  refine ⟨by decide, by decide +kernel, by decide +kernel, by decide +kernel, fun pv => ?_⟩
+  simp [FormOptions.unquoteValue, FormOptions.quotedReplaceSteps]
+
+/-- The key / token character class of the live compiled `_parameter_key_re` and
+`_parameter_token_value_re` (probed on all of Latin-1 and on letters / digits outside it) is the
+model's `isTokenCh`, the patterns and their `re.ASCII` flag are the ones the scanner was written for. -/
+theorem options_token_classes :
+    Gen.FormOptions.keyPattern = "([\\w!#$%&'*+\\-.^`|~]+)=" ∧
+    Gen.FormOptions.tokenPattern = "[\\w!#$%&'*+\\-.^`|~]+" ∧
+    Gen.FormOptions.continuationPattern = "\\*(\\d+)$" ∧
+    Gen.FormOptions.patternFlags = [256, 256, 256] ∧
+    Gen.FormOptions.classesAsciiOnly = true ∧
+    Gen.FormOptions.keyClass = Gen.FormOptions.tokenClass ∧
+    ∀ n, n < 256 → Gen.FormOptions.tokenClass.getD n false = FormOptions.isTokenCh (Char.ofNat n) := by
+  refine ⟨by decide +kernel, by decide +kernel, by decide +kernel, by decide, by decide, by decide +kernel, ?_⟩
+  decide +kernel
 
 /-- **parseOptions_disposition.** For every name and optional filename free of `"`, `\` and the
 substring `%22` (CR / LF are excluded one level up, by the header line syntax):
@@ -267,9 +368,129 @@ example :
       [Multipart.str "\r\n--b\r\nContent-Disposition: form-data; name=\"a\"\r\n\r\nabc\r\n--b--\r\n"]).err = none := by
   decide +kernel
 
-/-
-The composition with FileStorage construction, charset decoding of field values and the test client
-is exercised on the real code by streams `encoder-events` and `client-roundtrip`.
--/
+/-! ### the test client / environ builder side: `stream_encode_multipart` -/
+
+/-- The constants of `stream_encode_multipart` the client model uses, regenerated from the source by
+AST: file contents are read with `reader(16384)`, the content type falls back to
+`application/octet-stream`, and the only events it ever sends are Preamble(b""), Epilogue(b""),
+Field + Data(value.encode(), more_data=False) for text, Field / File with the value's headers +
+Data(chunk, more_data=True) … Data(chunk, more_data=False) for files. -/
+theorem client_constants_as_modelled :
+    Gen.FormOptions.clientReadSizes = [Multipart.clientChunkSize] ∧
+    Gen.FormOptions.clientFallbackTypes.map String.toList = [Multipart.octetStream] ∧
+    Gen.FormOptions.clientSendEvents =
+      ["Preamble(data=b'')", "Epilogue(data=b'')", "Field(name=key, headers=Headers())",
+       "Data(data=value.encode(), more_data=False)", "Field(name=key, headers=headers)",
+       "File(name=key, filename=filename, headers=headers)", "Data(data=chunk, more_data=True)",
+       "Data(data=chunk, more_data=False)"] :=
+  ⟨rfl, rfl, rfl⟩
+
+/-- **client_events_accepted.** The event sequence `stream_encode_multipart` (hence `encode_multipart`
+and `EnvironBuilder` with files) sends — Preamble(b""), per pair a Field/File event followed by its
+Data events (one for a text value; one per 16 KiB read plus a final empty one for a file value),
+Epilogue(b"") — is one the encoder accepts, for every list of pairs whose parts are valid, and the
+bytes written are the standard body `encBody` of those parts: everything proved about encoder output
+(C01's chunk independence, `decode_encode_chunked`) applies to what the test client sends. -/
+theorem client_events_accepted {bnd : Bytes} (guess : Multipart.Str → Option Multipart.Str)
+    (items : List (Multipart.Str × Multipart.ClientValue))
+    (hv : ∀ p ∈ Multipart.clientParts guess items, Multipart.ValidPart .crlf bnd p) :
+    Multipart.clientEncode guess bnd items =
+      .ok (Multipart.encBody .crlf bnd Multipart.stdEp (Multipart.clientParts guess items)) ∧
+    Multipart.encodeAll bnd (Multipart.clientParts guess items) = Multipart.clientEncode guess bnd items := by
+  have h := Multipart.clientEncode_eq guess items hv
+  exact ⟨h, by rw [h, Multipart.encodeAll_eq _ hv]⟩
+
+/-- **client_roundtrip.** For every boundary without CR / LF, every content-type guesser
+(`mimetypes.guess_type` is opaque) and every list of (key, value) pairs — text values over all of
+Unicode, file values with arbitrary bytes, a file name and any headers of their own, any mix and
+order, repeated keys, empty values — whose parts satisfy the decidable `ValidPart` (keys / file names
+free of `"`, `\`, CR, LF, `%22`; header lines that fit on a line; no payload line starting with
+`--boundary`): what `stream_encode_multipart` writes, read by `MultiPartParser.parse` with **any**
+`buffer_size` over **any** short-read schedule, comes back as exactly the expected fields and files
+(`clientExpected`): every text value as a field `(key, value)` — decoded as UTF-8, identical to the
+text sent —, every file as `(key, file name, headers, byte-exact content)`, all in order; and at the
+decoder level every chunking yields exactly the parts sent. -/
+theorem client_roundtrip {bnd : Bytes} (hb : Multipart.BoundaryOk bnd)
+    (guess : Multipart.Str → Option Multipart.Str) (items : List (Multipart.Str × Multipart.ClientValue))
+    (hv : ∀ p ∈ Multipart.clientParts guess items, Multipart.ValidPart .crlf bnd p)
+    (hn : Multipart.filesNamed items = true) (bufSize : Nat) (sched : List Nat) :
+    ∃ body, Multipart.clientEncode guess bnd items = .ok body ∧
+      Multipart.formParse bnd none none bufSize sched body = .ok (Multipart.clientExpected guess items) ∧
+      ∀ chunks : List Bytes, chunks.flatten = body →
+        (Multipart.decodeChunks bnd none none chunks).err = none ∧
+        Multipart.partsOf (Multipart.decodeChunks bnd none none chunks).events =
+          (Multipart.clientParts guess items).map Multipart.decodedPart := by
+  refine ⟨_, Multipart.clientEncode_eq guess items hv, ?_, fun chunks hj => ?_⟩
+  · have h := Multipart.formParse_lemma (nl := .crlf) (ep := Multipart.stdEp) (pr := []) (lead := true) hb
+      (Multipart.clientParts guess items) (Multipart.preFree_trivial .crlf bnd _ _) hv bufSize sched
+    have hbody : Multipart.bodyOf .crlf bnd Multipart.stdEp [] true (Multipart.clientParts guess items) =
+        Multipart.encBody .crlf bnd Multipart.stdEp (Multipart.clientParts guess items) := by
+      simp [Multipart.bodyOf]
+    rw [hbody] at h
+    rw [h, Multipart.formOfParts_client guess items hn ([], [])]
+    simp
+  · exact Multipart.decode_chunks_full_lemma (nl := .crlf) (ep := Multipart.stdEp) hb _
+      (Multipart.preFree_trivial .crlf bnd _ _) hv chunks (by rw [hj]; simp [Multipart.bodyOf])
+
+/-- **client_file_content_type.** The content type of an upload comes back: the `Content-Type` header
+of the file the parser returns (what `FileStorage.content_type` reads) is the value's own content type
+when it has one, otherwise the type guessed from the file name, otherwise
+`application/octet-stream`. -/
+theorem client_file_content_type (guess : Multipart.Str → Option Multipart.Str) (key : Multipart.Str)
+    (fn : Option Multipart.Str) (headers : Multipart.Headers) :
+    Multipart.headerGet "content-type".toList
+      (Multipart.cdHeader key fn ::
+        Multipart.hdrSet "Content-Type".toList (Multipart.clientContentType guess fn headers) headers) =
+      some (Multipart.clientContentType guess fn headers) ∧
+    (∀ ct, Multipart.headerGet "content-type".toList headers = some ct →
+      Multipart.clientContentType guess fn headers = ct) ∧
+    (Multipart.headerGet "content-type".toList headers = none → ∀ f g, fn = some f → f ≠ [] →
+      guess f = some g → g ≠ [] → Multipart.clientContentType guess fn headers = g) ∧
+    (Multipart.headerGet "content-type".toList headers = none → (fn = none ∨ ∀ f, fn = some f → guess f = none) →
+      Multipart.clientContentType guess fn headers = Multipart.octetStream) := by
+  refine ⟨?_, ?_, ?_, ?_⟩
+  · rw [Multipart.headerGet_cd_contentType]
+    have h := Multipart.headerGet_hdrSet "Content-Type".toList (Multipart.clientContentType guess fn headers) headers
+    have hl : Multipart.lowerAscii "Content-Type".toList = "content-type".toList := by decide +kernel
+    rw [hl] at h
+    exact h
+  · intro ct h; unfold Multipart.clientContentType; rw [h]
+  · intro h f g hf hne hg hg'
+    subst hf
+    have h1 : f.isEmpty = false := by cases f <;> simp at hne ⊢
+    have h2 : g.isEmpty = false := by cases g <;> simp at hg' ⊢
+    unfold Multipart.clientContentType; rw [h]
+    simp [h1, hg, h2]
+  · intro h hcase
+    unfold Multipart.clientContentType; rw [h]
+    rcases hcase with hnone | hg
+    · subst hnone; rfl
+    · cases fn with
+      | none => rfl
+      | some f =>
+        have := hg f rfl
+        simp only [this]
+        split <;> rfl
+
+/-- non-vacuity: a Unicode text value, a repeated key, an empty value and two uploads (binary content
+with CRLF and dashes and a `<…>` file name; a file with its own content type) are valid for boundary
+`bound`, every upload has a file name, and the expected result lists them in order -/
+example :
+    let g : Multipart.Str → Option Multipart.Str := fun f => if f == "a b.png".toList then some "image/png".toList else none
+    let items : List (Multipart.Str × Multipart.ClientValue) :=
+      [("é".toList, .text "ü € \r\n--boun".toList), ("k".toList, .text []), ("k".toList, .text "2".toList),
+       ("up".toList, .file [0, 255, 13, 10, 45, 45] (some "a b.png".toList) []),
+       ("up".toList, .file (Multipart.str "x") (some "<x>".toList) [("content-type".toList, "text/plain".toList)])]
+    (∀ p ∈ Multipart.clientParts g items, Multipart.ValidPart .crlf (Multipart.str "bound") p) ∧
+    Multipart.filesNamed items = true ∧
+    Multipart.clientExpected g items =
+      ([(some "é".toList, "ü € \r\n--boun".toList), (some "k".toList, []), (some "k".toList, "2".toList)],
+       [⟨some "up".toList, "a b.png".toList,
+          [("Content-Disposition".toList, "form-data; name=\"up\"; filename=\"a b.png\"".toList),
+           ("Content-Type".toList, "image/png".toList)], [0, 255, 13, 10, 45, 45]⟩,
+        ⟨some "up".toList, "<x>".toList,
+          [("Content-Disposition".toList, "form-data; name=\"up\"; filename=\"<x>\"".toList),
+           ("Content-Type".toList, "text/plain".toList)], Multipart.str "x"⟩]) := by
+  decide +kernel
 
 end Wz.Props.C02
